@@ -59,7 +59,8 @@ class DumpEffectOrder(Contract):
 
     def post(self, E, st, out):
         eff = E.path.effects[st["mark"]:]
-        opens = [i for i, e in enumerate(eff) if e[0] == "open" and "w" in e[2]]
+        # any mode that creates or truncates the destination: w, a, x, +
+        opens = [i for i, e in enumerate(eff) if e[0] == "open" and any(m in e[2] for m in "wax+")]
         errs = [i for i, e in enumerate(eff) if e[0] == "validation_error"]
         calls = [e[1] for e in eff if e[0] == "call"]
         if out.kind == "raise":
@@ -84,7 +85,7 @@ class DumpEffectOrder(Contract):
                 obj = obj[0] if isinstance(obj, tuple) else obj
                 for desc, o, f, bad in corrupt.sites(kind, obj):
                     for idx in range(len(bad)):
-                        yield {"kind": kind, "seed": seed, "site": desc, "idx": idx}
+                        yield {"kind": kind, "seed": seed, "site": desc, "idx": idx, "existing": (idx + seed) % 2 == 0}
 
     def native_eval(self, inputs):
         import os
@@ -96,8 +97,11 @@ class DumpEffectOrder(Contract):
         d = tempfile.mkdtemp(prefix="c18_")
         path = os.path.join(d, "out")
         try:
-            obj.dump(path)
-            before = open(path, "rb").read()
+            obj.dumps()
+            before = None
+            if inputs.get("existing", True):
+                obj.dump(path)
+                before = open(path, "rb").read()
             for desc, o, f, bad in corrupt.sites(kind, obj):
                 if desc == inputs["site"]:
                     setattr(o, f, bad[inputs["idx"]])
@@ -112,8 +116,9 @@ class DumpEffectOrder(Contract):
             shutil.rmtree(d, ignore_errors=True)
 
     def describe(self, inputs):
-        return "%s (generator seed %d) written to a file, then %s corrupted (bad value #%d) and dump(path) called again" % (
-            inputs["kind"], inputs["seed"], inputs["site"], inputs["idx"])
+        return "%s (generator seed %d) %s, then %s corrupted (bad value #%d) and dump(path) called" % (
+            inputs["kind"], inputs["seed"], "written to a file" if inputs.get("existing", True) else "with no file at the destination",
+            inputs["site"], inputs["idx"])
 
 
 class LoadsValidates(Contract):
